@@ -20,7 +20,14 @@ Proof. exact freq_axis. Qed.
 Theorem C17_default_dfreq : forall mn d, loader_default_dfreq mn false d = ((3#2) / inject_Z mn)%Q /\ loader_default_dfreq mn true d = d.
 Proof. exact default_dfreq. Qed.
 
+(** fsc, fsc_with_average and fsc_with_halfmaps are one computation: each hands mask, seed, number of sets and the requested shell width
+    (and zero_norm) on unchanged (generated call-binding facts), so the documented default width of fsc() and any requested width are
+    the ones the shells are cut with *)
+Theorem C17_entry_points_forward : fsc_forwards_arguments = true /\ fsc_with_average_forwards_arguments = true.
+Proof. split; reflexivity. Qed.
+
 Print Assumptions C17_label_spec.
 Print Assumptions C17_labels_partition.
 Print Assumptions C17_freq_axis.
 Print Assumptions C17_default_dfreq.
+Print Assumptions C17_entry_points_forward.
